@@ -1,1 +1,317 @@
+(** Proofs about the isotopomer mapper model (Iso.v): structure of the generated reactions (C05),
+    collapse of stoichiometries and of mass-action dynamics, in an arbitrary commutative ring. *)
+From Coq Require Import List ZArith NArith Bool Arith Lia Permutation Ring.
+From MxlBase Require Import ListX.
+From Label Require Import LModel Iso Algebra.
+Import ListNotations.
 
+(** ---- generic list / option / result lemmas ------------------------------------------------ *)
+Lemma collect_map_ok {A B} (f : A -> result B) l ys :
+  collect (map f l) = Ok ys -> Forall2 (fun x y => f x = Ok y) l ys.
+Proof.
+  revert ys. induction l as [|x l IH]; intros ys H; cbn in H.
+  - inversion H. constructor.
+  - destruct (f x) as [y|e] eqn:Hf; [|discriminate].
+    destruct (collect (map f l)) as [ys'|e] eqn:Hc; [|discriminate].
+    inversion H; subst ys. constructor; [exact Hf|apply IH; reflexivity].
+Qed.
+
+Lemma collect_map_err {A B} (f : A -> result B) l x e :
+  In x l -> f x = Err e -> exists e', collect (map f l) = Err e'.
+Proof.
+  induction l as [|y l IH]; intros Hin Hf; [destruct Hin|]. cbn.
+  destruct Hin as [->|Hin].
+  - rewrite Hf. eexists. reflexivity.
+  - destruct (f y); [|eexists; reflexivity].
+    destruct (IH Hin Hf) as [e' ->]. eexists. reflexivity.
+Qed.
+
+Lemma mapM_length {A B} (f : A -> option B) l ys : mapM f l = Some ys -> length ys = length l.
+Proof.
+  revert ys. induction l as [|x l IH]; intros ys H; cbn in H.
+  - inversion H. reflexivity.
+  - destruct (f x); [|discriminate]. destruct (mapM f l) as [ys'|]; [|discriminate].
+    inversion H. cbn. f_equal. apply IH. reflexivity.
+Qed.
+
+Lemma mapM_nth_error {A B} (f : A -> option B) l ys i x :
+  mapM f l = Some ys -> nth_error l i = Some x -> nth_error ys i = f x.
+Proof.
+  revert ys i. induction l as [|y l IH]; intros ys i H Hn; cbn in H.
+  - destruct i; discriminate.
+  - destruct (f y) as [b|] eqn:Hf; [|discriminate]. destruct (mapM f l) as [ys'|] eqn:Hm; [|discriminate].
+    inversion H; subst ys. destruct i; cbn in *.
+    + inversion Hn; subst. symmetry. exact Hf.
+    + apply IH; [reflexivity|exact Hn].
+Qed.
+
+Lemma Forall2_impl {A B} (P Q : A -> B -> Prop) l l' :
+  (forall x y, P x y -> Q x y) -> Forall2 P l l' -> Forall2 Q l l'.
+Proof. intros H. induction 1; constructor; auto. Qed.
+
+Lemma Forall2_map_eq {A B} (g : A -> B) l ys : Forall2 (fun x y => g x = y) l ys -> ys = map g l.
+Proof. induction 1 as [|x y l ys H _ IH]; cbn; [reflexivity|]. rewrite H, IH. reflexivity. Qed.
+
+(** ---- Python dict lemmas ------------------------------------------------------------------------ *)
+Section DictLemmas.
+  Context {K V : Type}.
+  Variable eqd : forall a b : K, {a = b} + {a <> b}.
+
+  Lemma dict_get_set k k' (v : V) (d : list (K * V)) :
+    dict_get eqd k (dict_set eqd k' v d) = if eqd k k' then Some v else dict_get eqd k d.
+  Proof.
+    induction d as [|[k0 v0] d IH]; cbn.
+    - destruct (eqd k k'); reflexivity.
+    - destruct (eqd k' k0) as [->|Hne]; cbn.
+      + destruct (eqd k k0); reflexivity.
+      + destruct (eqd k k0) as [->|Hne2].
+        * destruct (eqd k0 k') as [->|]; [contradiction|reflexivity].
+        * exact IH.
+  Qed.
+
+  Lemma dict_update_snoc (d pairs : list (K * V)) kv :
+    dict_update eqd d (pairs ++ [kv]) = dict_set eqd (fst kv) (snd kv) (dict_update eqd d pairs).
+  Proof. unfold dict_update. rewrite fold_left_app. reflexivity. Qed.
+
+  Lemma dict_update_notin k (d pairs : list (K * V)) :
+    ~ In k (map fst pairs) -> dict_get eqd k (dict_update eqd d pairs) = dict_get eqd k d.
+  Proof.
+    induction pairs as [|kv pairs IH] using rev_ind; intro Hn; [reflexivity|].
+    rewrite dict_update_snoc, dict_get_set. rewrite map_app, in_app_iff in Hn. cbn in Hn.
+    destruct (eqd k (fst kv)) as [->|Hne]; [exfalso; apply Hn; right; left; reflexivity|].
+    apply IH. intro H. apply Hn. left. exact H.
+  Qed.
+
+  Lemma dict_update_in k v (d pairs : list (K * V)) :
+    NoDup (map fst pairs) -> In (k, v) pairs -> dict_get eqd k (dict_update eqd d pairs) = Some v.
+  Proof.
+    induction pairs as [|kv pairs IH] using rev_ind; intros Hnd Hin; [destruct Hin|].
+    rewrite dict_update_snoc, dict_get_set. rewrite map_app in Hnd. cbn in Hnd.
+    apply in_app_or in Hin. destruct Hin as [Hin|[Hkv|[]]]; [|subst kv].
+    - destruct (eqd k (fst kv)) as [Heq|Hne].
+      + exfalso. apply NoDup_remove_2 in Hnd. apply Hnd. rewrite app_nil_r.
+        rewrite <- Heq. apply (in_map fst) in Hin. exact Hin.
+      + apply IH; [|exact Hin]. apply NoDup_remove_1 in Hnd. rewrite app_nil_r in Hnd. exact Hnd.
+    - cbn. destruct (eqd k k); [reflexivity|contradiction].
+  Qed.
+End DictLemmas.
+
+Lemma in_combine_fst {A B} (l : list A) (l' : list B) x : In x (map fst (combine l l')) -> In x l.
+Proof.
+  intro H. apply in_map_iff in H. destruct H as [[a b] [<- Hin]]. apply in_combine_l in Hin. exact Hin.
+Qed.
+
+Lemma map_fst_combine {A B} (l : list A) (l' : list B) : length l = length l' -> map fst (combine l l') = l.
+Proof.
+  revert l'. induction l as [|x l IH]; intros [|y l'] H; cbn in *; try reflexivity; try discriminate.
+  f_equal. apply IH. lia.
+Qed.
+
+Lemma map_via_combine {A B} (f : A -> B) (l : list A) (l' : list B) :
+  length l = length l' -> (forall k v, In (k, v) (combine l l') -> f k = v) -> map f l = l'.
+Proof.
+  revert l'. induction l as [|x l IH]; intros [|y l'] Hlen H; cbn in *; try reflexivity; try discriminate.
+  f_equal; [apply H; left; reflexivity|]. apply IH; [lia|]. intros k v Hin. apply H. right. exact Hin.
+Qed.
+
+(** ---- stoichiometry expansion ---------------------------------------------------------------------- *)
+Lemma in_subs_of st k : In k (subs_of st) -> exists v, In (k, v) st /\ (v < 0)%Z.
+Proof.
+  unfold subs_of. intro H. apply in_flat_map in H. destruct H as [[k' v] [Hin Hk]]. cbn in Hk.
+  destruct (v <? 0)%Z eqn:Hv; [|destruct Hk]. apply repeat_spec in Hk. subst. exists v. split; [exact Hin|lia].
+Qed.
+
+Lemma in_prods_of st k : In k (prods_of st) -> exists v, In (k, v) st /\ (0 <= v)%Z.
+Proof.
+  unfold prods_of. intro H. apply in_flat_map in H. destruct H as [[k' v] [Hin Hk]]. cbn in Hk.
+  destruct (v <? 0)%Z eqn:Hv; [destruct Hk|]. apply repeat_spec in Hk. subst. exists v. split; [exact Hin|lia].
+Qed.
+
+Lemma NoDup_fst_functional {A B} (l : list (A * B)) k v v' :
+  NoDup (map fst l) -> In (k, v) l -> In (k, v') l -> v = v'.
+Proof.
+  induction l as [|[a b] l IH]; intros Hnd H1 H2; [destruct H1|]. cbn in Hnd.
+  apply NoDup_cons_iff in Hnd. destruct Hnd as [Hn Hnd].
+  destruct H1 as [H1|H1], H2 as [H2|H2].
+  - congruence.
+  - inversion H1; subst. exfalso. apply Hn. apply (in_map fst) in H2. exact H2.
+  - inversion H2; subst. exfalso. apply Hn. apply (in_map fst) in H1. exact H1.
+  - apply IH; assumption.
+Qed.
+
+Lemma subs_prods_disjoint st k : NoDup (map fst st) -> In k (subs_of st) -> In k (prods_of st) -> False.
+Proof.
+  intros Hnd Hs Hp. apply in_subs_of in Hs. apply in_prods_of in Hp.
+  destruct Hs as [v [Hv Hlt]]. destruct Hp as [v' [Hv' Hge]].
+  assert (v = v') by (eapply NoDup_fst_functional; eassumption). lia.
+Qed.
+
+(** net coefficient of the base stoichiometry = #products - #substrates *)
+Lemma count_subs_notin st c : ~ In c (map fst st) -> count_occ N.eq_dec (subs_of st) c = 0.
+Proof.
+  intro H. apply count_occ_not_In. intro Hin. apply in_subs_of in Hin. destruct Hin as [v [Hv _]].
+  apply H. apply (in_map fst) in Hv. exact Hv.
+Qed.
+Lemma count_prods_notin st c : ~ In c (map fst st) -> count_occ N.eq_dec (prods_of st) c = 0.
+Proof.
+  intro H. apply count_occ_not_In. intro Hin. apply in_prods_of in Hin. destruct Hin as [v [Hv _]].
+  apply H. apply (in_map fst) in Hv. exact Hv.
+Qed.
+
+Lemma count_repeat_same (c : N) n : count_occ N.eq_dec (repeat c n) c = n.
+Proof. induction n; cbn; [reflexivity|]. destruct (N.eq_dec c c); [lia|contradiction]. Qed.
+Lemma count_repeat_other (c k : N) n : k <> c -> count_occ N.eq_dec (repeat k n) c = 0.
+Proof. intro H. induction n; cbn; [reflexivity|]. destruct (N.eq_dec k c); [contradiction|exact IHn]. Qed.
+
+Lemma net_stoichiometry st c :
+  NoDup (map fst st) ->
+  (Z.of_nat (count_occ N.eq_dec (prods_of st) c) - Z.of_nat (count_occ N.eq_dec (subs_of st) c))%Z
+  = match getN c st with Some v => v | None => 0%Z end.
+Proof.
+  induction st as [|[k v] st IH]; intro Hnd; [reflexivity|].
+  cbn in Hnd. apply NoDup_cons_iff in Hnd. destruct Hnd as [Hn Hnd].
+  unfold getN in *. cbn [dict_get]. unfold subs_of, prods_of in *. cbn [flat_map fst snd].
+  rewrite !count_occ_app. destruct (N.eq_dec c k) as [->|Hne].
+  - fold (subs_of st). fold (prods_of st). rewrite count_subs_notin, count_prods_notin by exact Hn.
+    destruct (v <? 0)%Z eqn:Hv; cbn [count_occ]; rewrite count_repeat_same; lia.
+  - specialize (IH Hnd). destruct (v <? 0)%Z; cbn [count_occ]; rewrite count_repeat_other by congruence; lia.
+Qed.
+
+(** ---- split / assign ------------------------------------------------------------------------------ *)
+Lemma split_label_length l counts : length (split_label l counts) = length counts.
+Proof. revert l. induction counts as [|c cs IH]; intro l; cbn; [reflexivity|]. rewrite IH. reflexivity. Qed.
+
+Lemma total_cons c cs : total (c :: cs) = c + total cs. Proof. reflexivity. Qed.
+
+Lemma split_label_full l counts :
+  total counts <= length l -> Forall2 (fun q n => length q = n) (split_label l counts) counts.
+Proof.
+  revert l. induction counts as [|c cs IH]; intros l H; cbn [split_label]; constructor.
+  - rewrite total_cons in H. rewrite firstn_length. lia.
+  - rewrite total_cons in H. apply IH. rewrite skipn_length. lia.
+Qed.
+
+Lemma split_label_concat l counts : total counts <= length l -> concat (split_label l counts) = firstn (total counts) l.
+Proof.
+  revert l. induction counts as [|c cs IH]; intros l H; [reflexivity|].
+  rewrite total_cons in *. cbn [split_label concat].
+  rewrite IH by (rewrite skipn_length; lia).
+  rewrite <- (firstn_skipn c l) at 3. rewrite firstn_app, firstn_length, Nat.min_l by lia.
+  rewrite firstn_firstn, Nat.min_r by lia.
+  replace (c + total cs - c) with (total cs) by lia. reflexivity.
+Qed.
+
+Lemma split_label_prefix p e counts : total counts <= length p -> split_label (p ++ e) counts = split_label p counts.
+Proof.
+  revert p. induction counts as [|c cs IH]; intros p H; [reflexivity|].
+  rewrite total_cons in H. cbn [split_label].
+  rewrite firstn_app, skipn_app. replace (c - length p) with 0 by lia. cbn. rewrite app_nil_r. f_equal.
+  apply IH. rewrite skipn_length. lia.
+Qed.
+
+Lemma iso_name_inj c q c' q' : iso_name c q = iso_name c' q' -> c = c' /\ q = q'.
+Proof. destruct q, q'; cbn; intro H; inversion H; auto. Qed.
+
+(** the pairs (compound, bits) behind [assign_labels] are well formed when the label string is long enough *)
+Definition wf_pairs (nl : N -> nat) (pairs : list (N * list bool)) : Prop :=
+  Forall (fun cq => length (snd cq) = nl (fst cq)) pairs.
+
+Lemma wf_pairs_split (nl : N -> nat) cs l :
+  total (map nl cs) <= length l -> wf_pairs nl (combine cs (split_label l (map nl cs))).
+Proof.
+  revert l. induction cs as [|c cs IH]; intros l H; cbn [map split_label combine]; constructor.
+  - cbn [map] in H. rewrite total_cons in H. cbn [fst snd]. rewrite firstn_length. lia.
+  - cbn [map] in H. rewrite total_cons in H. apply IH. rewrite skipn_length. lia.
+Qed.
+
+(** ---- C05: one reaction per pattern, rejection of short maps, positions ----------------------------- *)
+Section Structure.
+  Variable ext_bit : bool.
+  Variable lv : label_vars.
+  Variable r : brxn.
+  Variable lmap : list Z.
+  Let bs := subs_of (r_stoich r).
+  Let bp := prods_of (r_stoich r).
+  Let tsl := total (labels_per lv bs).
+  Let tpl := total (labels_per lv bp).
+
+  Definition psuffix_of (p : list bool) : list bool :=
+    match map_s2p (suffix_of ext_bit lv r p) lmap with Some s => s | None => [] end.
+
+  Lemma create_ok_shape rxns :
+    create_iso_rxns ext_bit lv r lmap = Ok rxns ->
+    tsl <= length lmap
+    /\ rxns = map (fun p => mk_iso_rxn lv r (suffix_of ext_bit lv r p) (psuffix_of p)) (all_patterns tsl)
+    /\ forall p, In p (all_patterns tsl) -> map_s2p (suffix_of ext_bit lv r p) lmap = Some (psuffix_of p).
+  Proof.
+    unfold create_iso_rxns. fold bs. fold tsl. destruct (Nat.ltb (length lmap) tsl) eqn:Hlt; [discriminate|].
+    apply Nat.ltb_ge in Hlt. intro H. apply collect_map_ok in H. split; [exact Hlt|].
+    assert (Hall : Forall2 (fun p y => map_s2p (suffix_of ext_bit lv r p) lmap = Some (psuffix_of p)
+                                       /\ mk_iso_rxn lv r (suffix_of ext_bit lv r p) (psuffix_of p) = y)
+                           (all_patterns tsl) rxns).
+    { eapply Forall2_impl; [|exact H]. cbv beta. intros p y Hy. unfold iso_rxn_for in Hy. unfold psuffix_of.
+      destruct (map_s2p (suffix_of ext_bit lv r p) lmap); [|discriminate]. inversion Hy. split; reflexivity. }
+    split.
+    - apply Forall2_map_eq. eapply Forall2_impl; [|exact Hall]. intros p y [_ Hy]. exact Hy.
+    - intros p Hp. clear H. induction Hall as [|x y l ys [Hx _] _ IH]; [destruct Hp|].
+      destruct Hp as [<-|Hp]; [exact Hx|apply IH; exact Hp].
+  Qed.
+
+  Lemma one_reaction_per_pattern rxns :
+    create_iso_rxns ext_bit lv r lmap = Ok rxns ->
+    map lr_name rxns = map (fun p => LIso (r_name r) (p ++ repeat ext_bit (tpl - tsl))) (all_patterns tsl)
+    /\ NoDup (map lr_name rxns)
+    /\ length rxns = 2 ^ tsl.
+  Proof.
+    intro H. apply create_ok_shape in H. destruct H as [_ [-> _]]. rewrite map_map. cbn [lr_name mk_iso_rxn].
+    split; [reflexivity|split].
+    - apply FinFun.Injective_map_NoDup; [|apply all_patterns_NoDup].
+      intros x y Hxy. inversion Hxy as [Happ]. unfold suffix_of in Happ. apply app_inv_tail in Happ. exact Happ.
+    - rewrite map_length. apply all_patterns_count.
+  Qed.
+
+  Lemma short_map_rejected : length lmap < tsl -> create_iso_rxns ext_bit lv r lmap = Err ErrValue.
+  Proof.
+    intro H. unfold create_iso_rxns. fold bs. fold tsl. apply Nat.ltb_lt in H. rewrite H. reflexivity.
+  Qed.
+
+  Lemma positions rxns p :
+    create_iso_rxns ext_bit lv r lmap = Ok rxns -> In p (all_patterns tsl) ->
+    exists psuffix,
+      In (mk_iso_rxn lv r (p ++ repeat ext_bit (tpl - tsl)) psuffix) rxns
+      /\ length psuffix = length lmap
+      /\ (forall i m, nth_error lmap i = Some m ->
+                      nth_error psuffix i = py_index (p ++ repeat ext_bit (tpl - tsl)) m)
+      /\ concat (split_label (p ++ repeat ext_bit (tpl - tsl)) (labels_per lv bs)) = p
+      /\ (tpl <= length lmap -> concat (split_label psuffix (labels_per lv bp)) = firstn tpl psuffix).
+  Proof.
+    intros H Hp. apply create_ok_shape in H. destruct H as [Hlen [-> Hs]]. specialize (Hs p Hp).
+    exists (psuffix_of p). unfold map_s2p in Hs. pose proof (all_patterns_length _ _ Hp) as Hpl.
+    split; [|split; [|split; [|split]]].
+    - apply in_map_iff. exists p. split; [reflexivity|exact Hp].
+    - eapply mapM_length. exact Hs.
+    - intros i m Hm. eapply mapM_nth_error in Hs; [|exact Hm]. exact Hs.
+    - rewrite split_label_concat by (rewrite app_length; fold bs tsl; lia).
+      fold bs tsl. rewrite firstn_app, Hpl, Nat.sub_diag, firstn_all2 by lia. cbn. apply app_nil_r.
+    - intro Hl. apply split_label_concat. fold bp tpl. apply mapM_length in Hs. lia.
+  Qed.
+End Structure.
+
+(** reading a label string with a Python index *)
+Lemma py_index_substrate {A} (p e : list A) (m : Z) :
+  (0 <= m < Z.of_nat (length p))%Z -> py_index (p ++ e) m = nth_error p (Z.to_nat m).
+Proof.
+  intro H. unfold py_index, py_norm. rewrite app_length.
+  destruct (Z.leb_spec 0 m) as [H0|H0]; [|lia].
+  destruct (Z.ltb_spec m (Z.of_nat (length p + length e))) as [H1|H1]; [|lia].
+  apply nth_error_app1. lia.
+Qed.
+
+Lemma py_index_external (p : list bool) b k (m : Z) :
+  (Z.of_nat (length p) <= m < Z.of_nat (length p + k))%Z -> py_index (p ++ repeat b k) m = Some b.
+Proof.
+  intro H. unfold py_index, py_norm. rewrite app_length, repeat_length.
+  destruct (Z.leb_spec 0 m) as [H0|H0]; [|lia].
+  destruct (Z.ltb_spec m (Z.of_nat (length p + k))) as [H1|H1]; [|lia].
+  rewrite nth_error_app2 by lia. apply nth_error_repeat. lia.
+Qed.
